@@ -89,7 +89,11 @@ def mk_uboot(io, cfg, power):
     class Conn(connector.Connector):
         @contextlib.contextmanager
         def _connect(self):
-            yield channel.Channel(io)
+            ch = channel.Channel(io)
+            # a channel that carries a black-list from an earlier user (a chain-loaded second stage, a shell that ran
+            # on it before): the autoboot keys are configuration, they are sent whatever that list says
+            ch._write_blacklist = list(cfg.get("pre_bl", []))
+            yield ch
 
         def clone(self):
             raise NotImplementedError()
@@ -231,6 +235,8 @@ class UBootSuite(Suite):
             if cfg["keys"] != "\r" and autoboot:
                 # keys that are not Enter: the console reacts to the first key byte like to Enter (simulated as a line)
                 cfg["keys"] = "\r"
+            if autoboot and rng.random() < 0.15:
+                cfg["pre_bl"] = [13, 0x7f, 3]
             hangs = cfg["stall"] is not None or (autoboot and not countdown)
             if cfg["boot_timeout"] is None and hangs:
                 cfg["boot_timeout"] = 5120
